@@ -149,7 +149,7 @@ end unfoldP
 mutual
 theorem prepN_ok {T : List Name} {files : Files} (hH : inH T files = true) {J : PJ} {inl : List Name}
     (hJ : PJSpec T files J inl) : ∀ (n : Node) (z : Bool) (c : Cache),
-    tagsOkN T n = true → zoneFreeN T z n = true → clsOkN files n = true → CacheInv T files c →
+    tagsOkN T n = true → zoneFreeN files T z n = true → clsOkN files n = true → CacheInv T files c →
     ∃ ns' c', prepN files J inl n c = .ok (ns', c') ∧ PrepL T files z [n] ns' ∧ CacheInv T files c'
   | .text s, z, c, _, _, _, hc => ⟨_, _, rfl, .text .nil, hc⟩
   | .var x, z, c, _, _, _, hc => ⟨_, _, rfl, .var .nil, hc⟩
@@ -189,11 +189,10 @@ theorem prepN_ok {T : List Name} {files : Files} (hH : inH T files = true) {J : 
     exact ⟨_, _, by rw [prepN_dyn, he]; rfl, .keep hp .nil, hc'⟩
   | .include (.static h) cls hasFb fb pos, z, c, ht, hz, hk, hc => by
     simp only [tagsOkN] at ht
-    simp only [zoneFreeN, Bool.and_eq_true, Bool.not_eq_true'] at hz
+    simp only [zoneFreeN, Bool.and_eq_true, Bool.or_eq_true, Bool.not_eq_true'] at hz
     simp only [clsOkN, Bool.and_eq_true] at hk
     obtain ⟨hz0, hzfb⟩ := hz
     obtain ⟨hcls, hkfb⟩ := hk
-    subst hz0
     obtain ⟨fb', c', he, hp, hc'⟩ := prepL_ok hH hJ fb _ c ht hzfb hkfb hc
     rw [prepN_static]
     cases hres : resolve pos h with
@@ -206,7 +205,12 @@ theorem prepN_ok {T : List Name} {files : Files} (hH : inH T files = true) {J : 
         cases hasFb with
         | true =>
           refine ⟨fb', c', by simpa using he, ?_, hc'⟩
-          have := PrepL.inlineMissing (c := cls) hres hfind hp (.nil (T := T) (files := files) (z := false))
+          have hw : z = true → winfreeL T fb = true := by
+            intro hzt
+            rcases hz0 with hz0 | hz0
+            · rw [hzt] at hz0; cases hz0
+            · simpa [zoneTargetOk, hres, hfind] using hz0
+          have := PrepL.inlineMissing (c := cls) hres hfind hw hp (.nil (T := T) (files := files) (z := z))
           simpa using this
         | false =>
           refine ⟨_, c', by simp [he], .keep hp .nil, hc'⟩
@@ -226,11 +230,16 @@ theorem prepN_ok {T : List Name} {files : Files} (hH : inH T files = true) {J : 
           · simp only [hin, if_false]
             obtain ⟨b', c2, hj, hpb, hc2⟩ := hJ name c fk body hin hfind hc
             refine ⟨[.inlined b'], c2, by simp [hj], ?_, hc2⟩
-            exact .inlineFound hres hfind hpb .nil
+            have hw : z = true → winfreeL T body = true := by
+              intro hzt
+              rcases hz0 with hz0 | hz0
+              · rw [hzt] at hz0; cases hz0
+              · simpa [zoneTargetOk, hres, hfind] using hz0
+            exact .inlineFound hres hfind hw hpb .nil
 termination_by structural n => n
 theorem prepL_ok {T : List Name} {files : Files} (hH : inH T files = true) {J : PJ} {inl : List Name}
     (hJ : PJSpec T files J inl) : ∀ (ns : List Node) (z : Bool) (c : Cache),
-    tagsOkL T ns = true → zoneFreeL T z ns = true → clsOkL files ns = true → CacheInv T files c →
+    tagsOkL T ns = true → zoneFreeL files T z ns = true → clsOkL files ns = true → CacheInv T files c →
     ∃ ns' c', prepL files J inl ns c = .ok (ns', c') ∧ PrepL T files z ns ns' ∧ CacheInv T files c'
   | [], z, c, _, _, _, hc => ⟨[], c, rfl, .nil, hc⟩
   | n :: ns, z, c, ht, hz, hk, hc => by
